@@ -9,6 +9,7 @@ use ec_core::operator::selector::best::Best;
 use ec_core::operator::selector::tournament::Tournament;
 use ec_core::operator::selector::worst::Worst;
 use ec_core::operator::selector::Selector;
+use ec_core::population::Population;
 use proptest::prelude::*;
 use rand::rngs::StdRng;
 use rand::SeedableRng;
@@ -16,6 +17,7 @@ use serde::{Deserialize, Serialize};
 use serde_json::Value;
 
 use crate::rngs::ScriptRng;
+use crate::selharness::PaddedVec;
 use crate::stats::{binom, run_jobs, Job, Stat};
 use crate::{ensure, fail, guarded, panic_key, splitmix, Ctx, Fail, Probe};
 
@@ -66,10 +68,17 @@ fn pop_of(keys: &[i64]) -> Vec<PInd> {
 }
 
 /// One tournament draw with the sampled subset recovered from the comparison log.
-fn draw<R: rand::Rng>(t: &Tournament, pop: &Vec<PInd>, k: usize, rng: &mut R) -> Result<(u32, Vec<u32>), Fail> {
+fn draw<P, R: rand::Rng>(t: &Tournament, population: &P, k: usize, rng: &mut R) -> Result<(u32, Vec<u32>), Fail>
+where
+    P: Population<Individual = PInd> + AsRef<[PInd]>,
+{
+    let pop: &[PInd] = population.as_ref();
     take_compared();
-    let r = guarded(|| t.select(pop, rng).map(|w| (w.id, std::ptr::from_ref(w))));
+    let r = guarded(|| t.select(population, rng).map(|w| (w.id, std::ptr::from_ref(w))));
     let mut s = take_compared();
+    if let Some(stranger) = s.iter().find(|i| **i as usize >= pop.len()) {
+        return Err(Fail::new("Tournament/compared-a-non-member", format!("a tournament of {k} over {} individuals compared individual {stranger}, which is not in the population", pop.len())));
+    }
     match r {
         Err(p) => Err(Fail::new(format!("Tournament/panic:{}", panic_key(&p)), format!("tournament of {k} over {} panicked: {p}", pop.len()))),
         Ok(Err(e)) => Err(Fail::new("Tournament/spurious-error", format!("tournament of {k} over {}: {e}", pop.len()))),
@@ -115,19 +124,42 @@ pub struct Case {
     /// this many individuals larger (whatever a selector or its thread remembers must not leak)
     #[serde(default)]
     pub other: u8,
+    /// > 0: the population is a user-defined type whose live individuals are a prefix of a larger store
+    /// (this many strangers lie behind it), with a lazy borrowed iterator and a hand-written size()
+    #[serde(default)]
+    pub padded: u8,
 }
 
 pub fn oracle(c: &Case, probe: &mut Probe) -> Result<(), Fail> {
-    let pop = pop_of(&c.keys);
+    if c.padded == 0 {
+        oracle_on(c, probe, |keys| pop_of(keys))
+    } else {
+        probe.label("user-defined population type (lazy iterator, hand-written size, padded store)");
+        // behind the live prefix lie strangers that would beat (or lose to) everybody
+        let extras = usize::from(c.padded);
+        oracle_on(c, probe, move |keys| {
+            let n = keys.len();
+            PaddedVec::with_extras(pop_of(keys), (0..extras).map(|e| PInd { id: (n + e) as u32, key: if e % 2 == 0 { i64::MAX } else { i64::MIN } }))
+        })
+    }
+}
+
+fn oracle_on<P>(c: &Case, probe: &mut Probe, make: impl Fn(&[i64]) -> P) -> Result<(), Fail>
+where
+    P: Population<Individual = PInd> + AsRef<[PInd]>,
+    for<'a> &'a P: IntoIterator<Item = &'a PInd>,
+{
+    let population = make(&c.keys);
+    let pop: &[PInd] = population.as_ref();
     let n = pop.len();
     let mut rng = ScriptRng::new(&c.script, 0xC07);
     // best / worst
     for (name, want) in [("Best", c.keys.iter().max()), ("Worst", c.keys.iter().min())] {
         let r = guarded(|| {
             if name == "Best" {
-                Best.select(&pop, &mut rng).map(|w| (w.key, std::ptr::from_ref(w))).map_err(|e| e.to_string())
+                Best.select(&population, &mut rng).map(|w| (w.key, std::ptr::from_ref(w))).map_err(|e| e.to_string())
             } else {
-                Worst.select(&pop, &mut rng).map(|w| (w.key, std::ptr::from_ref(w))).map_err(|e| e.to_string())
+                Worst.select(&population, &mut rng).map(|w| (w.key, std::ptr::from_ref(w))).map_err(|e| e.to_string())
             }
         });
         take_compared();
@@ -152,7 +184,7 @@ pub fn oracle(c: &Case, probe: &mut Probe) -> Result<(), Fail> {
     let t = Tournament::new(NonZeroUsize::new(k).unwrap_or(NonZeroUsize::MIN));
     if k > n {
         take_compared();
-        let r = guarded(|| t.select(&pop, &mut rng).map(|w| w.id).map_err(|e| e.to_string()));
+        let r = guarded(|| t.select(&population, &mut rng).map(|w| w.id).map_err(|e| e.to_string()));
         match r {
             Err(p) => fail!("Tournament/panic-size", "tournament of {k} over {n} panicked: {p}"),
             Ok(Ok(id)) => fail!("Tournament/oversized-accepted", "tournament of {k} over {n} individuals returned {id}"),
@@ -162,13 +194,13 @@ pub fn oracle(c: &Case, probe: &mut Probe) -> Result<(), Fail> {
         probe.nontrivial = true;
         return Ok(());
     }
-    let other_pop = pop_of(&(0..(n + usize::from(c.other)) as i64).collect::<Vec<_>>());
+    let other_pop = make(&(0..(n + usize::from(c.other)) as i64).collect::<Vec<_>>());
     for _ in 0..3 {
         if c.other > 0 {
             let _ = guarded(|| t.select(&other_pop, &mut rng).map(|w| w.id).ok());
             take_compared();
         }
-        let (id, s) = draw(&t, &pop, k, &mut rng)?;
+        let (id, s) = draw(&t, &population, k, &mut rng)?;
         // at least as good as k-1 other members
         let not_better = pop.iter().filter(|i| i.id != id && i.key <= pop[id as usize].key).count();
         ensure!(
@@ -209,9 +241,10 @@ pub fn strategy(max_n: usize) -> BoxedStrategy<Case> {
                 prop_oneof![4 => 1usize..=n.max(1), 1 => Just(n + 1), 1 => Just(n), 1 => Just(1usize)],
                 crate::rngs::script_strategy(24),
                 prop_oneof![3 => Just(0u8), 1 => 1u8..9],
+                prop_oneof![3 => Just(0u8), 1 => 1u8..4],
             )
         })
-        .prop_map(|(keys, k, script, other)| Case { keys, k, script, other })
+        .prop_map(|(keys, k, script, other, padded)| Case { keys, k, script, other, padded })
         .boxed()
 }
 
